@@ -222,12 +222,30 @@ func stateArgs(ms string) string { // "S=… SIZE=… IDX=… PEND=…" -> args 
 	return strings.Join(out, " ")
 }
 
+// normS reduces the pending-replace/pending-truncate slot of `S=` to 0|1: the hook reports a flag,
+// a model of the repaired code (proposed-fixes/C18-vfs-poll.diff) carries the truncation commit.
+func normS(st string) string {
+	i := strings.Index(st, "S=")
+	if i < 0 {
+		return st
+	}
+	j := strings.IndexByte(st[i:], ' ')
+	if j < 0 {
+		j = len(st) - i
+	}
+	f := strings.Split(st[i+2:i+j], ":")
+	if len(f) == 6 && f[4] != "0" {
+		f[4] = "1"
+	}
+	return st[:i+2] + strings.Join(f, ":") + st[i+j:]
+}
+
 func (w *world) compareModel(where, implPrefix, model string) {
 	impl := implPrefix + w.implState()
-	if hx.Differs(impl, model) {
+	if hx.Differs(normS(impl), normS(model)) {
 		w.fail("disagreement", "C18/model-"+strings.SplitN(where, "#", 2)[0], fmt.Sprintf("%s: impl %.700q model %.700q", where, impl, model))
 	}
-	if hx.Differs(impl, model) {
+	if hx.Differs(normS(impl), normS(model)) {
 		// resynchronise: the model continues from the implementation's state so that the rest of the
 		// history still runs (the property oracle must get its chance after a disagreement)
 		w.ms = w.implState()
@@ -293,6 +311,10 @@ func (w *world) open() error {
 // classify maps a failed comparison to a signature: the two known findings are predicates on the
 // history (a shrinking commit in the plan / consumed by a poll) plus the shape of the failure.
 func (w *world) classify(onlySizeTooBig bool, generic string) string {
+	if os.Getenv("C18_NO_KNOWN") != "" {
+		// validation of a repair: no failure is attributed to a recorded finding
+		return generic
+	}
 	if onlySizeTooBig {
 		// "every page equal, FileSize too large" is F6's shape only: stale high pages survive from an
 		// Open on a plan that shrank. Every replace-index path (F7/F7b) rebuilds the index from scratch, so
@@ -542,7 +564,7 @@ func (w *world) timeTravel(i, a int) {
 		r, _ := w.replicaArg()
 		model := w.ask(fmt.Sprintf("vopen PLAN=%s TT=1 R=%s", planArg(plan), r))
 		impl := "ok " + w.implState()
-		if hx.Differs(impl, model) {
+		if hx.Differs(normS(impl), normS(model)) {
 			w.fail("disagreement", "C18/model-timetravel", fmt.Sprintf("step%d: impl %.500q model %.500q", i, impl, model))
 		}
 	}
